@@ -34,6 +34,15 @@ def install(ctx):
         return 'vstr_erase(%s, %s)' % (addr, ', '.join(a)), 'void'
     ctx.stub_methods[('vstr', 'erase')] = m_erase
 
+    def m_compare(em, o, ot, op, args):
+        fire('R14')
+        if len(args) != 3:
+            raise ExtractError('std::string::compare: only the (pos, len, const char*) form is in the subset')
+        a = [em.emit(x)[0] for x in args]
+        addr = ('&' + o) if op == '.' else o
+        return 'vstr_compare(%s, %s)' % (addr, ', '.join(a)), 'int'
+    ctx.stub_methods[('vstr', 'compare')] = m_compare
+
     def m_assign(em, o, ot, op, args):
         fire('R14')
         a = [em.emit(x)[0] for x in args]
